@@ -119,7 +119,8 @@ class ApplyInstruction(MichelsonInstruction, prim='APPLY'):
         left, lambda_ = cast(Tuple[MichelsonType, LambdaType], stack.pop2())
         lambda_.assert_type_in(LambdaType)
         lambda_.args[0].assert_type_in(PairType)
-        left_type, right_type = lambda_.args[0].args
+        # NOTE: the components of the parameter pair may carry field annotations, which are not part of the types
+        left_type, right_type = (arg.get_anon_type() for arg in lambda_.args[0].args)
         left.assert_type_equal(left_type)
 
         new_value = MichelineSequence.create_type(
